@@ -1,5 +1,6 @@
 # Licensed under a 3-clause BSD style license - see LICENSE.rst
 
+import locale
 import os
 import warnings
 from copy import deepcopy
@@ -110,6 +111,9 @@ def _write_ds9(regions, filename, *, precision=8, overwrite=False):
         raise OSError(f'{filename} already exists')
 
     output = _serialize_ds9(regions, precision=precision)
+    # fail before the file is opened (and truncated) if the text cannot
+    # be encoded
+    output.encode(locale.getpreferredencoding(False))
     with open(filename, 'w') as fh:
         fh.write(output)
 
